@@ -92,6 +92,18 @@ class ModelBuild:
         self.static_facts = {}
         self.files = []
         self.compile_s = 0.0
+        self.mc = None
+        mc = cfgspec['multiclient']
+        if mc:
+            port = [p for p in self.ports if p['sem'] == 'MC'][0]
+            claim = [e for e in self.events if e['port'] == port['idx'] and e['name'] == mc['claim']][0]
+            release = [e for e in self.events if e['port'] == port['idx'] and e['name'] == mc['release']][0]
+            enum = modelgen.find_enum(spec, spec['mc']['enum'])
+            self.mc = {'port': port['idx'], 'claim': claim['idx'], 'release': release['idx'],
+                       'grant': enum['fields'].index(mc['grant'][0]), 'n_fields': len(enum['fields']),
+                       'out_events': [e['idx'] for e in self.events if e['port'] == port['idx'] and e['dir'] == 'out'],
+                       'other_in': [e['idx'] for e in self.events if e['port'] == port['idx'] and e['dir'] == 'in'
+                                    and e['idx'] not in (claim['idx'], release['idx'])]}
 
     def cleanup(self):
         shutil.rmtree(self.workdir, ignore_errors=True)
